@@ -36,6 +36,7 @@ type Node struct {
 	Default   string   `json:"default,omitempty"`
 	Keys      []string `json:"keys,omitempty"`
 	Shorthand bool     `json:"shorthand,omitempty"` // case written without a 'case' statement
+	Mandatory bool     `json:"mandatory,omitempty"` // choice: mandatory true
 	UserOrder bool     `json:"userorder,omitempty"` // list: ordered-by user
 	MapList   bool     `json:"maplist,omitempty"`   // struct stores: back this list by a Go map
 	ValueList bool     `json:"valuelist,omitempty"` // struct-backed Reflect: a slice of struct values ([]T), not pointers
@@ -334,6 +335,10 @@ func (n *Node) yang(b *strings.Builder, d int) {
 		if n.Default != "" {
 			ind(b, d+1)
 			fmt.Fprintf(b, "default %s;\n", n.Default)
+		}
+		if n.Mandatory {
+			ind(b, d+1)
+			b.WriteString("mandatory true;\n")
 		}
 	case Case:
 		fmt.Fprintf(b, "case %s {\n", n.Name)
@@ -747,6 +752,8 @@ func (g *gen) choice(depth int, inList bool) *Node {
 	if g.caps.ChoiceDefaults && g.r.Chance(1, 3) {
 		// a default case (its leaves carry no defaults, so nothing is implied by it)
 		ch.Default = ch.Children[g.r.Intn(len(ch.Children))].Name
+	} else if g.caps.ChoiceDefaults && g.r.Chance(1, 3) {
+		ch.Mandatory = true
 	}
 	return ch
 }
